@@ -581,4 +581,75 @@ theorem run_append (P : Params) (dry : Bool) (ops : List Op) (o : Op) :
     run P dry (ops ++ [o]) = step P (run P dry ops) o := by
   simp [run, List.foldl_append]
 
+
+/-! ## DryRun never on / always on, as predicates of the operation list -/
+
+/-- no reload switches DryRun on -/
+def NoDryReload (ops : List Op) : Prop := ∀ g d, Op.reload g d ∈ ops → d = false
+/-- no reload switches DryRun off -/
+def NoWetReload (ops : List Op) : Prop := ∀ g d, Op.reload g d ∈ ops → d = true
+
+theorem flags_arrive (s : St) (t : Nat) (root : Bool) (client : Nat) (filt : Bool) :
+    (arrive s t root client filt).everDry = s.everDry ∧ (arrive s t root client filt).everWet = s.everWet := by
+  unfold arrive
+  simp only
+  split
+  · exact ⟨rfl, rfl⟩
+  · split
+    · split <;> exact ⟨rfl, rfl⟩
+    · split <;> exact ⟨rfl, rfl⟩
+
+theorem flags_decideT (P : Params) (s : St) (t : Nat) :
+    (decideT P s t).everDry = s.everDry ∧ (decideT P s t).everWet = s.everWet := by
+  unfold decideT
+  simp only
+  split
+  · exact ⟨rfl, rfl⟩
+  · split
+    · exact ⟨rfl, rfl⟩
+    · split <;> exact ⟨rfl, rfl⟩
+
+theorem flags_drainOne (s : St) :
+    (drainOne s).everDry = s.everDry ∧ (drainOne s).everWet = s.everWet := by
+  unfold drainOne
+  split <;> exact ⟨rfl, rfl⟩
+
+theorem everDry_foldl (P : Params) (ops : List Op) (hno : NoDryReload ops) :
+    ∀ s, s.everDry = false → (ops.foldl (step P) s).everDry = false := by
+  induction ops with
+  | nil => intro s h; exact h
+  | cons o os ih =>
+    intro s h
+    apply ih (fun g d hm => hno g d (List.mem_cons_of_mem _ hm))
+    cases o with
+    | span t root client filt => exact (flags_arrive s t root client filt).1.trans h
+    | decide t => exact (flags_decideT P s t).1.trans h
+    | drain => exact (flags_drainOne s).1.trans h
+    | reload g d =>
+      have := hno g d List.mem_cons_self
+      simp [step, reloadCfg, h, this]
+
+theorem everWet_foldl (P : Params) (ops : List Op) (hno : NoWetReload ops) :
+    ∀ s, s.everWet = false → (ops.foldl (step P) s).everWet = false := by
+  induction ops with
+  | nil => intro s h; exact h
+  | cons o os ih =>
+    intro s h
+    apply ih (fun g d hm => hno g d (List.mem_cons_of_mem _ hm))
+    cases o with
+    | span t root client filt => exact (flags_arrive s t root client filt).2.trans h
+    | decide t => exact (flags_decideT P s t).2.trans h
+    | drain => exact (flags_drainOne s).2.trans h
+    | reload g d =>
+      have := hno g d List.mem_cons_self
+      simp [step, reloadCfg, h, this]
+
+/-- started with DryRun off and never reloaded with DryRun on: DryRun was never on -/
+theorem everDry_run (P : Params) (ops : List Op) (hno : NoDryReload ops) : (run P false ops).everDry = false :=
+  everDry_foldl P ops hno _ rfl
+
+/-- started with DryRun on and never reloaded with DryRun off: DryRun was always on -/
+theorem everWet_run (P : Params) (ops : List Op) (hno : NoWetReload ops) : (run P true ops).everWet = false :=
+  everWet_foldl P ops hno _ rfl
+
 end Refinery.Lemmas.Collector
